@@ -429,3 +429,6 @@ fn compute_only_shift<T: MomTropFloat, const D: usize>(
         })
         .collect_vec()
 }
+
+#[cfg(feature = "verif-hooks")]
+pub mod verif;
